@@ -186,6 +186,8 @@ pub fn ref_encode(call: &EncCall, eid_resp: u8) -> RefEnc {
         TraitSpdm { half, secured, header, data } => {
             raw(if *secured { 0x06 } else { 0x05 }, header, data, *half == Half::Resp)
         }
+        // the writer is handed a MessageType variant: integrity bit clear, 7-bit type
+        TraitTyped { half, mt, data } => raw(MSG_TYPES[*mt as usize] & 0x7F, &None, data, *half == Half::Resp),
         RespSetEndpointId { cc, assign, alloc } => resp(
             0x01,
             *cc,
